@@ -21,6 +21,7 @@ CFG = dict(
              "from an alphabet with quotes, delimiters, CR, LF, NUL, non-UTF-8, spaces, key subsets/orders incl. none, empty "
              "and odd header names, duplicate keys inserted at random places and at rows 253..256, delimiters , ; tab |, run "
              "sizes 1/64/4096/huge/random, workers 1/3/4/8/16; big cells; wrgl commit + wrgl export through RootCmd. "
+             "forced worker schedules (gated store: 3..5 blocks x 4/6/8 workers, completion orders 1-2-0, 1-0-3-2, 2-0-1, reverse) compared with the one-worker table; "
              "distinct = distinct case text; non-trivial = at least two rows",
         trusted=["the case holds the CSV after parsing; Run serialises it (own writer) and checks encoding/csv reads it back "
                  "unchanged (so \\r\\n inside a cell, which the Go reader turns into \\n, never appears in a case)",
